@@ -215,6 +215,28 @@ var admitGates = []GateSpec{
 
 func ruleAdmitDominators(c *Ctx) {
 	runGates(c, admitGates)
+	// the policy check refuses a transaction signed by a blocked account - *any* signer, not the sender alone (a
+	// blocked account co-signing a transaction that a clean account sends still moves its funds): the check is a
+	// loop over the transaction's signers whose every iteration passes the blocked-account lookup
+	if fd := c.P.Func("pkg/core/native", "Policy", "CheckPolicy"); fd != nil {
+		hasLoop := false
+		ast.Inspect(fd.Decl.Body, func(n ast.Node) bool {
+			if rs, ok := n.(*ast.RangeStmt); ok && c.P.NewFuncCFG(fd).DirectMentions(rs.X)["pkg/core/transaction#Signers"] {
+				hasLoop = true
+			}
+			return true
+		})
+		if !hasLoop {
+			c.Fail("CheckPolicy.signers-loop.all-signers", c.P.Pos(fd.Decl.Pos()), "Policy.CheckPolicy does not range over the transaction's signers: a blocked account that is not the one signer looked at can still sign (co-sign, or pay through Notary) an admitted transaction")
+			goto afterPolicy
+		}
+	}
+	runGates(c, []GateSpec{{
+		ID: "CheckPolicy.signers-loop", Fn: [3]string{"pkg/core/native", "Policy", "CheckPolicy"}, LoopOver: "pkg/core/transaction#Signers", Target: "loop-next",
+		Guards:   []Guard{{ID: "not-blocked", Doc: "a blocked signer rejects the transaction", Alts: [][]string{{"pkg/core/native.(*Policy).isBlockedInternal"}}}},
+		MustCall: [][]string{{"pkg/core/native.(*Policy).isBlockedInternal"}},
+	}})
+afterPolicy:
 	// boundaries of the admission checks: exactly-at-the-limit cases are part of what the ledger accepts in a block
 	fnV := [3]string{"pkg/core", "Blockchain", "verifyAndPoolTx"}
 	boundary(c, "verifyAndPoolTx.size-boundary", fnV, "pkg/core/transaction.MaxTransactionSize", true, "above", "a transaction size", false, 1)
